@@ -43,6 +43,7 @@ fn main() {
         libc::signal(libc::SIGQUIT, libc::SIG_IGN);
     }
     let result: Value = match prop.as_str() {
+        "C01" => props::c01::run(&ctx),
         "C05" => props::c05::run(&ctx),
         "C19" => props::c19::run(&ctx),
         _ => {
